@@ -120,25 +120,18 @@ theorem frame_killVar {s : State} (v q : Nat) (c0 : Option Nat) : Frame c0 s (ki
         | some p => right; rfl
       · exact .inl rfl
 
-theorem frame_allocBind (c : Bool) (f : Fun) (s : State) (hI : Inv s) (c0 : Option Nat) :
-    Frame c0 s (allocBind c f s) := by
+theorem frame_of_ext {s s' : State} (E : Ext s s') (c0 : Option Nat) : Frame c0 s s' := by
   refine frame_of_sub ?_ ?_
   · intro x X' hx
-    by_cases hxn : x = s.nextRep
-    · subst hxn; rw [reps_allocBind_self hI] at hx; cases hx; left; intro c' hc'; simp at hc'
-    · rcases reps_allocBind_other c f s x hxn with h | ⟨X, -, -, hX, -, -, h⟩
-      · rw [h] at hx; exact .inr ⟨X', hx, fun _ h _ => h, fun h => h⟩
-      · rw [h] at hx; cases hx
-        exact .inr ⟨X, hX, by intro c' hc' _; rw [setPar_cbs] at hc'; exact hc',
-          by intro h'; rw [setPar_call] at h'; exact h'⟩
-  · intro c' _; rw [conns_allocBind]; exact .inl rfl
+    by_cases hlt : x < s.nextRep
+    · obtain ⟨X, hX, h1, -, h3⟩ := E.old x X' hx hlt
+      exact .inr ⟨X, hX, by intro c' hc' _; rw [← h1]; exact hc', by intro h'; rw [← h3]; exact h'⟩
+    · left; intro c hc
+      rw [E.newCbs x X' hx (by omega)] at hc; simp at hc
+  · intro c' _; rw [E.conns]; exact .inl rfl
 
-theorem frame_cloneRep {s : State} (hI : Inv s) {r : Nat} {R : Rep} (hR : s.reps r = some R)
-    (c0 : Option Nat) : Frame c0 s (cloneRep r s) := by
-  rw [cloneRep_eq hR]
-  cases R.fn with
-  | none => exact frame_allocRep_empty _ rfl s c0
-  | some f => exact frame_allocBind _ f s hI c0
+theorem frame_cloneRep {s : State} (hw : WF s) (r : Nat) (c0 : Option Nat) : Frame c0 s (cloneRep r s) :=
+  frame_of_ext (ext_cloneRep hw.inv hw.idle r) c0
 
 theorem frame_eraseRep {s : State} (q : Nat) (c0 : Option Nat) : Frame c0 s (eraseRep q s) := by
   refine frame_of_sub ?_ ?_
@@ -177,7 +170,7 @@ theorem frame_exchange {s : State} (hI : Inv s) {d n : Nat} {N : Rep} (hn : s.re
     obtain ⟨hC, -⟩ := destroyRep_spec (fuel (switchRep d n Q.parent s)) q _ hI2
     exact ((frame_switchRep s d n Q.parent c0).trans (frame_of_casc hC c0)).trans (frame_eraseRep q c0)
 
-theorem frame_deleteRepWithCheck {s : State} (hw : WF s) (v : Nat) (c0 : Option Nat)
+theorem frame_deleteRepWithCheck {s : State} (hw : WF s) (v : Nat) (hnm : v < anonBase) (c0 : Option Nat)
     (he : (deleteRepWithCheck v s).err = false) : Frame c0 s (deleteRepWithCheck v s) := by
   have hI := hw.inv
   rw [deleteRepWithCheck_eq] at he ⊢
@@ -195,7 +188,7 @@ theorem frame_deleteRepWithCheck {s : State} (hw : WF s) (v : Nat) (c0 : Option 
           rw [destroyRep_err_true _ _ _ (by rw [err_modSlot]; exact hx)] at he; exact absurd he (by simp)
       obtain ⟨hC1, hI1⟩ := repDisconnect_spec hI r he1
       have hv1 : repOf (repDisconnect r s) v = some r := by
-        simp only [repOf, repDisconnect_slot hI hv he1]; exact hv
+        simp only [repOf, repDisconnect_slot hI hv hnm he1]; exact hv
       obtain ⟨hI2, -⟩ := inv_unhold hI1 hv1
       obtain ⟨hC3, -⟩ := destroyRep_spec
         (fuel ((repDisconnect r s).modSlot v fun V => { V with rep := none })) r _ hI2
@@ -272,16 +265,25 @@ def boundConn : Op → Option Nat
   | .connS c _ | .newC c | .cpC c _ | .asgC c _ | .delC c => some c
   | _ => none
 
-theorem frame_apply {s : State} (hw : WF s) (op : Op) (hc : check s op = none)
+theorem frame_apply {s : State} (hw : WF s) (op : Op) (hc' : check s op = none)
     (he : (apply op s).err = false) : Frame (boundConn op) s (apply op s) := by
   have hI := hw.inv
+  obtain ⟨hn, hc⟩ := check_named hc'
+  clear hc'
   cases op with
   | newT t => exact (by apply frame_of_eq <;> rfl)
   | delT t =>
     have he' : (trkNotify t s).err = false := he
     exact (frame_of_casc (trkNotify_spec hw t he').2.1 _).trans ((by apply frame_of_eq <;> rfl))
   | notifyT t => exact frame_of_casc (trkNotify_spec hw t he).2.1 _
-  | mkS v f => exact (frame_allocBind true f s hI _).trans ((by apply frame_of_eq <;> rfl))
+  | mkS v f =>
+    have h2 : specCheck s f = none := by
+      simp only [check0] at hc
+      split at hc
+      · cases hc
+      · exact hc
+    simp only [Op.named, Op.names, List.all_cons, Bool.and_eq_true, decide_eq_true_eq, List.all_eq_true] at hn
+    exact (frame_of_ext (ext_newRep hI hw.idle h2 hn.2) _).trans ((by apply frame_of_eq <;> rfl))
   | mkS0 v => exact (by apply frame_of_eq <;> rfl)
   | cpS j i =>
     simp only [apply]
@@ -295,8 +297,7 @@ theorem frame_apply {s : State} (hw : WF s) (op : Op) (hc : check s op = none)
         simp only []
         split
         · exact (by apply frame_of_eq <;> rfl)
-        · obtain ⟨R, hR⟩ := hI.repAlive i r (repOf_eq.mpr ⟨X, hi, hr⟩)
-          exact (frame_cloneRep hI hR _).trans ((by apply frame_of_eq <;> rfl))
+        · exact (frame_cloneRep hw r _).trans ((by apply frame_of_eq <;> rfl))
   | mvS j i =>
     simp only [apply]
     cases hi : s.slots i with
@@ -311,9 +312,12 @@ theorem frame_apply {s : State} (hw : WF s) (op : Op) (hc : check s op = none)
         split
         · split
           · exact (by apply frame_of_eq <;> rfl)
-          · exact (frame_cloneRep hI hR _).trans ((by apply frame_of_eq <;> rfl))
+          · exact (frame_cloneRep hw r _).trans ((by apply frame_of_eq <;> rfl))
         · exact ((frame_weakNotify r s _).trans ((by apply frame_of_eq <;> rfl))).trans ((by apply frame_of_eq <;> rfl))
   | asgS d x =>
+    have hnd : d < anonBase := by
+      have hn' : d < anonBase ∧ x < anonBase := by simpa [Op.named, Op.names] using hn
+      exact hn'.1
     simp only [apply] at he ⊢
     cases hx : s.slots x with
     | none => exact Frame.refl _ s
@@ -324,18 +328,21 @@ theorem frame_apply {s : State} (hw : WF s) (op : Op) (hc : check s op = none)
       · rename_i hsame
         rw [if_neg hsame] at he
         split
-        · rename_i hemp; rw [if_pos hemp] at he; exact frame_deleteRepWithCheck hw d _ he
+        · rename_i hemp; rw [if_pos hemp] at he; exact frame_deleteRepWithCheck hw d hnd _ he
         · cases hr : X.rep with
           | none => exact Frame.refl _ s
           | some r =>
             simp only []
             obtain ⟨R, hR⟩ := hI.repAlive x r (repOf_eq.mpr ⟨X, hx, hr⟩)
-            obtain ⟨N, -, hF⟩ := fresh_cloneRep hw hR
+            obtain ⟨N, hF⟩ := fresh_cloneRep hw r
             have hF' := fresh_modSlot_blocked hF d X.blocked
-            exact ((frame_cloneRep hI hR _).trans
+            exact ((frame_cloneRep hw r _).trans
               (frame_of_eq (reps_modSlot _ _ _) (conns_modSlot _ _ _) _)).trans
               (frame_exchange hF'.inv hF'.self hF'.cbs hF'.orph _)
   | masgS d x =>
+    have hnd : d < anonBase := by
+      have hn' : d < anonBase ∧ x < anonBase := by simpa [Op.named, Op.names] using hn
+      exact hn'.1
     simp only [apply] at he ⊢
     cases hx : s.slots x with
     | none => exact Frame.refl _ s
@@ -346,7 +353,7 @@ theorem frame_apply {s : State} (hw : WF s) (op : Op) (hc : check s op = none)
       · rename_i hsame
         rw [if_neg hsame] at he
         split
-        · rename_i hemp; rw [if_pos hemp] at he; exact frame_deleteRepWithCheck hw d _ he
+        · rename_i hemp; rw [if_pos hemp] at he; exact frame_deleteRepWithCheck hw d hnd _ he
         · cases hr : X.rep with
           | none => exact Frame.refl _ s
           | some r =>
@@ -359,10 +366,10 @@ theorem frame_apply {s : State} (hw : WF s) (op : Op) (hc : check s op = none)
             have hR0 : (s.modSlot d fun D => { D with blocked := X.blocked }).reps r = some R := by
               rw [reps_modSlot]; exact hR
             split
-            · obtain ⟨N, -, hF⟩ := fresh_cloneRep hw0 hR0
+            · obtain ⟨N, hF⟩ := fresh_cloneRep hw0 r
               have hnx : (s.modSlot d fun D => { D with blocked := X.blocked }).nextRep = s.nextRep :=
                 nextRep_modSlot _ _ _
-              refine (hF0.trans (frame_cloneRep hw0.inv hR0 _)).trans ?_
+              refine (hF0.trans (frame_cloneRep hw0 r _)).trans ?_
               have := frame_exchange (d := d) hF.inv hF.self hF.cbs hF.orph none
               rw [hnx] at this
               exact this
@@ -379,19 +386,22 @@ theorem frame_apply {s : State} (hw : WF s) (op : Op) (hc : check s op = none)
               exact (hF0.trans hFm).trans (frame_exchange h1 h4 rfl h5 _)
   | setS d f =>
     have hspec : specCheck s f = none := by
-      simp only [check] at hc
+      simp only [check0] at hc
       split at hc
       · simp at hc
       · exact hc
-    have hF := fresh_modSlot_blocked (fresh_allocBind hw true (funOk_of_spec hI hspec)) d false
-    exact ((frame_allocBind true f s hI _).trans
+    simp only [Op.named, Op.names, List.all_cons, Bool.and_eq_true, decide_eq_true_eq, List.all_eq_true] at hn
+    obtain ⟨N, hF0⟩ := fresh_newRep hw hspec hn.2
+    have hF := fresh_modSlot_blocked hF0 d false
+    exact ((frame_of_ext (ext_newRep hI hw.idle hspec hn.2) _).trans
       (frame_of_eq (reps_modSlot _ _ _) (conns_modSlot _ _ _) _)).trans
       (frame_exchange hF.inv hF.self hF.cbs hF.orph _)
   | clrS d =>
+    have hnd : d < anonBase := by simpa [Op.named, Op.names] using hn
     simp only [apply] at he ⊢
     split
     · exact frame_of_eq (reps_modSlot _ _ _) (conns_modSlot _ _ _) _
-    · rename_i r hr; simp only [hr] at he; exact frame_deleteRepWithCheck hw d _ he
+    · rename_i r hr; simp only [hr] at he; exact frame_deleteRepWithCheck hw d hnd _ he
   | delS v =>
     rw [apply_delS] at he ⊢
     cases hv : repOf s v with
